@@ -2,6 +2,7 @@
 pub mod chunks;
 pub mod coin;
 pub mod fields;
+pub mod frih;
 pub mod gen;
 pub mod json;
 pub mod prng;
